@@ -19,14 +19,15 @@ RULE = (
     "indexes it with `db create`, then a history of 3-14 steps interpreted against the current state: append a "
     "word / bullet to a note, change kind or priority, add a note (with or without ZID), delete a note, move a "
     "note with its ZID to another page, add a tag / property / date to a title or section header (changes what "
-    "untouched notes inherit), add a section, touch a file, add / delete / rename a page, advance the calendar by "
+    "untouched notes inherit), add a section, touch a file, add / delete / rename a page, break a page (an "
+    "unfinished line that is a syntax error: reindex must refuse) and repair it later, advance the calendar by "
     "1-40 days, `db reindex`, `db reindex <absolute paths of a subset>`; finally a plain `db reindex`.  Oracle "
     "(differential): the final files are copied to a fresh directory and indexed with `db create` under the same "
     "frozen day; the canonical dump of the incremental index (notes with every field, partition into blocks, page "
     "rows) must equal the fresh one, 7 fixed queries must print the same text on both, and the rebuild must not "
     "need to change any file.  Every edit is gated by an independent parse (invalid edits are skipped and "
     "counted).  Non-trivial = >= 1 reindex before the final one and >= 2 of {page delete, page rename, note move, "
-    "explicit-path reindex, day advance followed by an edit}; distinct by SHA-1 of the history."
+    "explicit-path reindex, refused reindex, day advance followed by an edit}; distinct by SHA-1 of the history."
 )
 ASSUMPTIONS = [
     "explicit paths are passed absolute (a relative path is resolved against the process cwd: caller precondition)",
@@ -83,7 +84,7 @@ def check(case, rec: Rec) -> None:
         flags = set()
         reindexes = 0
         advanced_pending = False
-        for st_ in case["steps"] + [{"op": "reindex"}]:
+        for st_ in case["steps"] + [{"op": "fix_pages"}, {"op": "reindex"}]:
             op = st_["op"]
             if op == "advance_day":
                 day += st_["days"]
@@ -103,6 +104,9 @@ def check(case, rec: Rec) -> None:
                     with rec.sut("db-reindex"):
                         r = env.zorg(zdir, *args)
                 log.append(" ".join(args[1:]).replace(str(zdir) + "/", "") + f" -> exit {r.code}")
+                if r.code != 0 and wd.broken_pages():
+                    flags.add("refused-reindex")  # a page is (transiently) broken: refusing is right
+                    continue
                 if r.code != 0:
                     raise Violation("reindex-failed", "history:\n  " + "\n  ".join(log) + f"\n{r.out[-400:]}")
                 reindexes += 1
@@ -112,7 +116,7 @@ def check(case, rec: Rec) -> None:
             if what is None:
                 continue
             log.append(what)
-            if op in ("del_page", "rename_page", "move_note"):
+            if op in ("del_page", "rename_page", "move_note", "break_page"):
                 flags.add(op)
             if advanced_pending:
                 flags.add("edit-after-day-advance")
